@@ -975,7 +975,7 @@ func cp1CopyComplete(p *core.Prog, rep *core.Report) {
 				continue
 			}
 			// (b) matched
-			if c, idx := extractOf(iff.Cond); c != nil && idx == 0 && core.StaticCalleeIs(c.Common(), "path/filepath.Match") && edgeDominates(iff, true, r.Block()) {
+			if c, idx := extractOf(iff.Cond); c != nil && idx == 0 && (core.StaticCalleeIs(c.Common(), "path/filepath.Match") || isMatchHelper(c.Common().StaticCallee())) && edgeDominates(iff, true, r.Block()) {
 				ok = true
 			}
 			// (a) relative name == ""
@@ -1052,4 +1052,23 @@ func tagCompare(bo *ssa.BinOp) (*types.Var, bool) {
 		return f, true
 	}
 	return nil, false
+}
+
+// isMatchHelper: an unexported helper of package utils whose first result is a bool and that calls filepath.Match
+// (`matchesAny(patterns, name) (bool, error)`: the exclusion loop extracted from the walk callback).
+func isMatchHelper(f *ssa.Function) bool {
+	if f == nil || f.Package() == nil || f.Package().Pkg.Path() != core.ModPath+"/utils" || token.IsExported(f.Name()) || f.Signature.Results().Len() == 0 {
+		return false
+	}
+	if bt, ok := f.Signature.Results().At(0).Type().Underlying().(*types.Basic); !ok || bt.Kind() != types.Bool {
+		return false
+	}
+	for _, b := range f.Blocks {
+		for _, in := range b.Instrs {
+			if c, ok := in.(*ssa.Call); ok && core.StaticCalleeIs(c.Common(), "path/filepath.Match") {
+				return true
+			}
+		}
+	}
+	return false
 }
